@@ -15,11 +15,11 @@ import common
 import coqcases
 import coqmol
 import corpus
-from coqfmt import zraw, b, lst, tup
+from coqfmt import zraw, b, lst, tup, s as cstr
 
 replay = common.generic_replay
 
-IMPORTS = 'Graph PyHash Fingerprint FingerprintCGR'
+IMPORTS = 'Graph PyHash Fingerprint FingerprintCGR LinearSmiles'
 EXTRA = '''
 Import ListNotations.
 Open Scope Z_scope.
@@ -64,6 +64,16 @@ Definition mhd_full_ok (g : mol) (lo hi : Z) (e : pyres (list (list (Z * Z)))) :
 Definition mhs_full_ok (g : mol) (lo hi : Z) (e : pyres (list Z)) : bool := ok_set (morgan_hash_list hash_ztuple_fast g lo hi) e.
 Definition mbs_full_ok (g : mol) (lo hi len nab : Z) (e : pyres (list Z)) : bool :=
   ok_set (morgan_bit_list hash_ztuple_fast g lo hi len nab) e.
+(* linear_hash_smiles (Model.LinearSmiles): dictionaries hash -> set of SMILES, compared as dictionaries of sets *)
+Definition incl_s (l l' : list string) : bool := forallb (fun x => smem x l') l.
+Definition sd_ok (m e : list (Z * list string)) : bool :=
+  Nat.eqb (List.length m) (List.length e) && nodup_z (keys m) && nodup_z (keys e) &&
+  forallb (fun kv => zmem (fst kv) (keys e) && incl_s (snd kv) (sget e (fst kv)) && incl_s (sget e (fst kv)) (snd kv)) m.
+(* chs = the iteration order of the chain set observed on the implementation (it must be an enumeration of chains g lo hi) *)
+Definition lhsm_ok (fa : list (Z * string)) (fb : list (Z * list (Z * string))) (idd : list (Z * Z)) (g : mol) (lo hi : Z)
+    (chs : list path) (nbp : Z) (e : list (Z * list string)) : bool :=
+  paths_eqb (set_paths chs) (set_paths (chains g lo hi)) && Nat.eqb (List.length chs) (List.length (chains g lo hi)) &&
+  sd_ok (linear_hash_smiles_with (fa_of fa) (fb_of fb) hash_ztuple_fast idd g chs nbp) e.
 (* CGR containers (Model.FingerprintCGR) *)
 Definition cwf_ok (c : cgr) : bool := wf_cgr c.
 Definition cids_ok (c : cgr) (e : list (Z * Z)) : bool := dict_eqb (cgr_atom_identifiers c) e.
@@ -359,6 +369,12 @@ def mol_cases(ck, tag, g, m, rng):
                 add(f'lhs_full_ok {a} {zraw(nbp)} {zl(hs)}', 'linear_hash_set', (lo, hi, nbp), lanes + 4 * n)
             else:
                 add(f'lhs_ok {d} {a} {zraw(nbp)} {zl(hs)}', 'linear_hash_set (over the observed identifiers)', (lo, hi, nbp), lanes)
+            if lanes <= 500 and (affordable(lanes) or lanes <= 300):
+                # linear_hash_smiles over the observed iteration order of the chain set and the observed atom / bond spellings
+                order = list(m._chains(lo, hi))
+                exp = m.linear_hash_smiles(lo, hi, nbp)
+                add(f'lhsm_ok fa{g} fb{g} {d} {a} {pl(order)} {zraw(nbp)} {lst([tup(zx(k), lst([cstr(x) for x in v])) for k, v in exp.items()])}',
+                    'linear_hash_smiles (over the observed set order and spellings)', (lo, hi, nbp), lanes)
         if affordable(lanes + 4 * n) and (small or lanes < 300):
             ln = rng.choice(LENGTHS + BAD_LENGTHS[:1]) if rng.random() < 0.9 else rng.choice(BAD_LENGTHS)
             nab, nbp = rng.choice(NABS), rng.choice(NBPS)
@@ -420,6 +436,9 @@ def corr_molecules(ck):
         g = f'g{i}'
         cs = mol_cases(ck, tag, g, m, rng)
         defs = f'Definition {g} : mol := {coqmol.mol_term(m)}.\nDefinition d{g} : list (Z * Z) := {dict_term(m._atom_identifiers)}.\n'
+        defs += (f'Definition fa{g} : list (Z * string) := {lst([tup(zraw(k), cstr(m._format_atom(k, None, stereo=False))) for k in m._atoms])}.\n'
+                 f'Definition fb{g} : list (Z * list (Z * string)) := '
+                 f'{lst([tup(zraw(k), lst([tup(zraw(j), cstr(m._format_bond(k, j, None, stereo=False, aromatic=False))) for j in nb])) for k, nb in m._bonds.items()])}.\n')
         per_mol.append((defs, cs))
     ck.sample({'molecule': mols[5][0], 'case': per_mol[5][1][3][0][:300], 'meta': repr(per_mol[5][1][3][1])})
     # molecules are packed into shards of balanced estimated cost (one coqc process per shard)
@@ -564,7 +583,7 @@ def cgr_pool(ck, rng):
     # a corpus molecule composed with an edited copy of itself (bond deleted / order changed / charge changed)
     n_c = 0
     for smi in corpus.sample(corpus.lipo(), 200 if quick else 1500, ck.seed, 'c17cgr'):
-        if n_c >= (10 if quick else 100):
+        if n_c >= (8 if quick else 100):
             break
         m = parse(smi)
         if m is None or not 4 <= len(m._atoms) <= 24:
@@ -583,7 +602,7 @@ def cgr_pool(ck, rng):
             continue
         n_c += 1
         out.append((f'corpus-cgr:{smi}', c))
-    for i in range(16 if quick else 200):
+    for i in range(14 if quick else 200):
         k = rng.choice([1, 2, 3, 4, 4, 5, 5, 6, 7])
         out.append((f'generated-cgr:{i}:{k}', random_cgr(rng, k)))
     extra = []
@@ -1075,6 +1094,25 @@ def search_molecule_(ck, tag, smi, m, rng, budget_params):
                 cx(ck, f'morgan_bits:{tag}:{lo}:{hi}:{2 ** k}:{nab}', 'morgan_bit_set is not the union of the windows of the hashes / index out of range',
                                   {'molecule': tag, 'args': [lo, hi, 2 ** k, nab]}, sorted(bits ^ exp_b)[:8], 'windows', 'arithmetic definition of the folding',
                                   replay_py=rp + f"print(sorted(m.morgan_bit_set({lo}, {hi}, {2 ** k}, {nab})))" if smi else None)
+    # (4b) atoms exchanged by an automorphism (brute force over all permutations, molecules of at most 7 atoms) have equal Morgan
+    #      identifiers at every radius (the semantic characterisation C17_morgan_level_neighbourhood_invariant on the real code)
+    if 2 <= len(adj) <= 7:
+        ids_ = my_identifiers(m)
+        nums = list(adj)
+        dicts = m._morgan_hash_dict(1, 5)
+        n_auto = 0
+        for perm in itertools.permutations(nums):
+            s_ = dict(zip(nums, perm))
+            if all(s_[x] == x for x in nums) or any(ids_[x] != ids_[s_[x]] for x in nums):
+                continue
+            if all(set(s_[y] for y in adj[x]) == set(adj[s_[x]]) and all(int(m._bonds[x][y]) == int(m._bonds[s_[x]][s_[y]]) for y in adj[x]) for x in nums):
+                n_auto += 1
+                if any(d[x] != d[s_[x]] for d in dicts for x in nums):
+                    cx(ck, f'morgan-automorphism:{tag}', 'two atoms exchanged by an automorphism of the molecule have different Morgan identifiers',
+                       {'molecule': tag, 'automorphism': s_}, 'differ', 'equal at every radius', 'brute-force automorphisms')
+                    break
+        ck.case(('automorphisms', tag), nontrivial=n_auto > 0)
+        n_eval += 1
     # (5) invariance under renumbering and insertion-order shuffling, default and random parameters
     lo, hi = rng.choice([(1, 4), (1, 3), (2, 4), (1, 5), (2, 3)])
     nbp, nab, length = rng.choice([0, 2, 4]), rng.choice([1, 2, 3, 4]), rng.choice([256, 1024, 4096])
@@ -1310,8 +1348,8 @@ def run(ck):
                        'then fed to fragments_with / morgan_hash_dict_with (whose instances at atom_identifiers g are fragments / morgan_hash_dict by definition)',
                        'int(log2(length)) is modelled as Z.log2 length (exact for 0 < length < 2^49 - 1); numpy arrays (linear_fingerprint, morgan_fingerprint) '
                        'and the SMILES-producing variants (linear_hash_smiles, morgan_hash_smiles, *_smiles_hash) are not modelled: search only',
-                       'molecules satisfy Graph.wf_mol (checked on every correspondence molecule); KeyError paths for dangling neighbours and CGR containers '
-                       '(FingerprintsCGR._atom_identifiers) are not modelled']
+                       'molecules satisfy Graph.wf_mol (checked on every correspondence molecule); KeyError paths for dangling neighbours are not modelled; '
+                       'CGR containers are modelled by Model.FingerprintCGR (skeleton with int(DynamicBond) as bond number + CGR identifier dictionary)']
     ck.extra['rule'] = ('PyHash: boundary ints around 0, -1, 2^61-1, 2^63, 2^64 and their pairs, then random ints/bools/nested tuples (depth <= 3, length <= 9) and flat int '
                         'tuples; every case is non-trivial. Exhaustive: every labelled graph on 1..4 atoms (C N O S, single bonds) x radii -1..5 (quick: a seeded third '
                         'of the grid for 4 atoms). Folding: the real linear_bit_set / morgan_bit_set on stub hash sets (boundary values 0, -1, +-2^63, +-2^62, '
